@@ -454,6 +454,7 @@ class Interp:
             k = [i + 1 for i, n in enumerate(rets) if n is st]
             if k and k[0] in c.at_return:
                 from .apply import spec_bool
+                env.set('result', v)
                 for name, ex in c.at_return[k[0]].items():
                     self.ctx.oblige('%s.return%d.%s' % (c.id, k[0], name), spec_bool(self, ex, env), st.lineno,
                                     'at-return', info={'clause': ex})
